@@ -71,7 +71,8 @@ Qed.
 
 Lemma rt_shl_ok c a b : in_i64 a -> in_i64 b -> rt_shl c a b = ORet (lshl a b).
 Proof.
-  intros Ha Hb. unfold rt_shl, emit_shl. change (ibits I64) with 64. change (isigned I64) with true. cbv iota.
+  intros Ha Hb. unfold rt_shl, emit_shl, fast_width. change shl_fast_width_left with true. cbv iota.
+  change (ibits I64) with 64. change (isigned I64) with true. cbv iota.
   destruct (c && (0 <=? b) && (b <? 64)) eqn:E; [|apply h_shl_I64; auto].
   unfold op_shl_const. change (to_unsigned I64) with U64.
   rewrite (shl_u64 _ a b) by (auto; try lia; cbn [fst snd lit]; change (promote I32) with I32; unfold cwrap; cbn; lia).
